@@ -133,6 +133,8 @@ class ControllerCommandHandler:
         controller: ReadOnlyController,
         on_paused_callback: OnPausedCallback = lambda: None,
         on_resumed_callback: OnResumedCallback = lambda: None,
+        mark_paused_callback: OnPausedCallback = lambda: None,
+        mark_resumed_callback: OnResumedCallback = lambda: None,
     ) -> None:
         """Initialize the ControllerCommandHandler object.
 
@@ -140,10 +142,14 @@ class ControllerCommandHandler:
             controller: The ReadOnlyController object to be read.
             on_paused_callback: The callback function to be called when the thread is paused.
             on_resumed_callback: The callback function to be called when the thread is resumed.
+            mark_paused_callback: Marks the thread as paused without running any user hook.
+            mark_resumed_callback: Marks the thread as resumed without running any user hook.
         """
         self._controller = controller
         self.on_paused = on_paused_callback
         self.on_resumed = on_resumed_callback
+        self._mark_paused = mark_paused_callback
+        self._mark_resumed = mark_resumed_callback
 
     def stop_if_pause(self) -> None:
         """Wait until the thread is resumed, or return immediately if the
@@ -154,20 +160,27 @@ class ControllerCommandHandler:
         * If the thread is resume: the function will return immediately.
         * If the thread is paused: the function will block until the thread is resumed or shutdown.
         """
-        paused = False
-        # The thread never blocks before it has acknowledged the pause: a pause
-        # request that arrives after the check above is seen by the next check.
-        while self._controller.is_pause():
-            if not paused:
-                # In this implementation, `self._on_pause()` is invoked almost immediately when a pause occurs.
-                # Because the `ControllerCommandHandler` primarily runs `manage_loop()`,
-                # the `stop_if_pause()` method is frequently executed.
-                self.on_paused()
-                paused = True
-            self._controller.wait_for_resume(1.0)
+        if self._controller.is_resume():
+            return
 
-        if paused:
-            self.on_resumed()
+        # The thread never blocks before it has acknowledged the pause.
+        # In this implementation, `self._on_pause()` is invoked almost immediately when a pause occurs.
+        # Because the `ControllerCommandHandler` primarily runs `manage_loop()`,
+        # the `stop_if_pause()` method is frequently executed.
+        self.on_paused()
+        while True:
+            while self._controller.is_pause():
+                self._controller.wait_for_resume(1.0)
+            # Withdraw the acknowledgement first, then make sure that no new
+            # pause was requested in the meantime. Otherwise acknowledge again
+            # and keep waiting without running any hook, so that a pause which
+            # immediately follows a resume never finds a stale acknowledgement
+            # of a thread that is about to run.
+            self._mark_resumed()
+            if self._controller.is_resume():
+                break
+            self._mark_paused()
+        self.on_resumed()
 
     def manage_loop(self) -> bool:
         """Manages the infinite loop: blocking during thread is paused, and returning thread's activity flag.
